@@ -4,3 +4,4 @@ pub mod progen;
 pub mod rewrites;
 pub mod soup;
 pub mod syngen;
+pub mod loopgen;
